@@ -1402,6 +1402,10 @@ func (d *Data) handleSparsevolByPoint(ctx *datastore.VersionedCtx, w http.Respon
 		server.BadRequest(w, r, err)
 		return
 	}
+	if coord.NumDims() != 3 {
+		server.BadRequest(w, r, "expected a 3d coordinate, got %d dimensions", coord.NumDims())
+		return
+	}
 	label, err := d.GetLabelAtScaledPoint(ctx.VersionID(), coord, scale, isSupervoxel)
 	if err != nil {
 		server.BadRequest(w, r, err)
